@@ -514,6 +514,8 @@ func c08Client(t *testing.T, sc *C08Scenario, job *Job, res *Result) {
 				bdata[k] = v
 			}
 			frame := s.Frame
+			// 5 MiB in one-byte deliveries would only exhaust the simulator's step cap
+			rr.Tr.MinChunk = 8192
 			rr.Ref = func(w *refproto.Wire) error {
 				if frame > 0 {
 					w.MaxFrame = frame
